@@ -112,6 +112,34 @@ class KwSorter(ast.NodeTransformer):
         return node
 
 
+class IfSwapper(ast.NodeTransformer):
+    """if c: A else: B  ->  if not c: B else: A   (only plain if/else, not elif chains)"""
+
+    def visit_If(self, node):
+        self.generic_visit(node)
+        if node.orelse and not (len(node.orelse) == 1 and isinstance(node.orelse[0], ast.If)):
+            test = node.test
+            if isinstance(test, ast.UnaryOp) and isinstance(test.op, ast.Not):
+                new_test = test.operand
+            else:
+                new_test = ast.UnaryOp(op=ast.Not(), operand=test)
+            return ast.If(test=new_test, body=node.orelse, orelse=node.body)
+        return node
+
+
+class DotForm(ast.NodeTransformer):
+    """np.dot(a, b) -> a.dot(b) when a is a simple name/attribute chain"""
+
+    def visit_Call(self, node):
+        self.generic_visit(node)
+        f = node.func
+        if isinstance(f, ast.Attribute) and f.attr == "dot" and isinstance(f.value, ast.Name) and f.value.id == "np" and len(node.args) == 2 and not node.keywords:
+            a, b = node.args
+            if isinstance(a, (ast.Name, ast.Attribute)):
+                return ast.Call(func=ast.Attribute(value=a, attr="dot", ctx=ast.Load()), args=[b], keywords=[])
+        return node
+
+
 def twin_sources(project, kind):
     out = {}
     for rel, m in project.by_relpath.items():
@@ -121,6 +149,10 @@ def twin_sources(project, kind):
             tree = Renamer(plan).visit(tree)
         elif kind == "kwsort":
             tree = KwSorter().visit(tree)
+        elif kind == "ifswap":
+            tree = IfSwapper().visit(tree)
+        elif kind == "dotform":
+            tree = DotForm().visit(tree)
         else:
             raise SystemExit("unknown twin kind")
         ast.fix_missing_locations(tree)
